@@ -141,6 +141,78 @@ def c06(report, rng, tier, findings):
 
 # ------------------------------------------------------------------------------------------- C19
 
+def shared_twin_stream(report, findings, cases, flag, finding_id, counter, label, caching=(False, True)):
+    """Every case is evaluated with the objects named by `flag` SHARED and with separate objects.  A deviation of the shared
+    run while the run with separate objects is right is the known finding `finding_id` (if it is listed as open), anything
+    else is a violation."""
+    from .qcheck import eval_case
+    fnd = {f['id']: f for f in findings.get('findings', []) if f.get('status', 'open') == 'open'}
+    jobs = [({**c, flag: sh}, {'caching': caching, 'evals': 2}) for c in cases for sh in (True, False)]
+    res3 = pmap(eval_case, jobs)
+    for ci, case in enumerate(cases):
+        r_sh, r_un = res3[2 * ci], res3[2 * ci + 1]
+        if 'spec_exc' in r_sh:
+            continue
+        report.evaluations += 1
+        report.count(counter)
+        want = sorted(r_sh['spec'])
+
+        def wrong(r):
+            for key, run in r['impl'].items():
+                for ev, out in enumerate(run['outs']):
+                    if out[0] != 'rows' or sorted(set(out[1])) != sorted(set(want)):
+                        return f'caching {key}, evaluation {ev + 1}: {out}'
+            return None
+        w_un, w_sh = wrong(r_un), wrong(r_sh)
+        report.traces += 8
+        if w_un:
+            what = f'rows differ from the specification (separate expression objects; {w_un}; expected {want})'
+            report.violations.append((what, {'what': what, 'case': {**case, flag: False}, 'expected': want}))
+        elif w_sh:
+            if finding_id in fnd:
+                report.known[finding_id] = report.known.get(finding_id, 0) + 1
+                report.known_text[finding_id] = fnd[finding_id]['what']
+            else:
+                what = (f'{label}: {w_sh}; expected {want} (the same query with separate expression objects is right)')
+                report.violations.append((what, {'what': what, 'case': {**case, flag: True}, 'expected': want}))
+
+
+def shared_expression_pools(report, rng, n):
+    """ONE expression object (val = x.b) reused by two queries, in condition position in one and in value position in the
+    other, evaluated one after the other in both orders (used by C19 and by C04)."""
+    pools = []
+    for i in range(max(20, n // 6)):
+        cfg = gen.Cfg(n_vars=(1, 1), n_objs=(3, 6), depth=1, falsy=0.6, int_range=(0, 2), empty_domain=0.0)
+        base = gen.gen_case(rng, cfg, f's{i}')
+        base['vars'] = [(vid, 'A', raw) for vid, _, raw in base['vars']]
+        val = ('attr', 'b', ('var', 0))
+        lit = ('lit', rng.choice(gen.FALSY + [('i', 1)]))
+        qs = [{'sel': [('var', 0)], 'cond': [('truth', val)]},
+              {'sel': [('var', 0)], 'cond': [rng.choice([('cmp', 'eq', val, lit), ('cmp', 'ne', val, lit),
+                                                         ('in', val, ('lit', ('l', ('i', 0), ('n',), ('i', 2))))])]}]
+        order = [0, 1] if rng.random() < 0.5 else [1, 0]
+        pools.append({**base, 'pool': qs, 'hist': [('full', order[0]), ('full', order[1]), ('full', order[0])],
+                      'share_terms_pool': True})
+    res = pmap(c04_impl, [(c, {'caching': (False, True), 'share_terms': True}) for c in pools])
+    for case, r in zip(pools, res):
+        if 'spec_exc' in r:
+            continue
+        report.evaluations += 1
+        report.count('shared_expression_pools')
+        for key, run in r['runs'].items():
+            if 'exc' in run:
+                report.violations.append((f'implementation raised {run["exc"]}', {'what': run['exc'], 'case': case}))
+                continue
+            for si, (kind, qi, rows_) in enumerate(run['steps']):
+                report.traces += 1
+                if sorted(rows_) != sorted(r['specs'][qi]):
+                    what = (f'a shared expression object (val = x.b) used as a condition in one query and as a value in another: '
+                            f'step {si + 1} ({case["hist"][si]}, caching {key}) returned {sorted(rows_)}, expected {sorted(r["specs"][qi])}')
+                    report.violations.append((what, {'what': what, 'case': case, 'steps': run['steps'],
+                                                     'fresh_answers': r['specs']}))
+                    break
+
+
 def c19(report, rng, tier, findings):
     n = n_cases(tier, 360, 4000)
     cases = []
@@ -249,38 +321,7 @@ def c19(report, rng, tier, findings):
         return has_falsy and nontrivial_filter(case, res)
     judge = QueryJudge(report, findings, 'C19', nontrivial=nontriv)
     run_query_cases(report, cases, {'caching': (False, True), 'evals': 1}, judge)
-    # second stream: ONE expression object (val = x.b) reused by two queries, in condition position in one and in value
-    # position in the other, evaluated one after the other in both orders
-    pools = []
-    for i in range(max(20, n // 6)):
-        cfg = gen.Cfg(n_vars=(1, 1), n_objs=(3, 6), depth=1, falsy=0.6, int_range=(0, 2), empty_domain=0.0)
-        base = gen.gen_case(rng, cfg, f's{i}')
-        base['vars'] = [(vid, 'A', raw) for vid, _, raw in base['vars']]
-        val = ('attr', 'b', ('var', 0))
-        lit = ('lit', rng.choice(gen.FALSY + [('i', 1)]))
-        qs = [{'sel': [('var', 0)], 'cond': [('truth', val)]},
-              {'sel': [('var', 0)], 'cond': [rng.choice([('cmp', 'eq', val, lit), ('cmp', 'ne', val, lit),
-                                                         ('in', val, ('lit', ('l', ('i', 0), ('n',), ('i', 2))))])]}]
-        order = [0, 1] if rng.random() < 0.5 else [1, 0]
-        pools.append({**base, 'pool': qs, 'hist': [('full', order[0]), ('full', order[1]), ('full', order[0])]})
-    res = pmap(c04_impl, [(c, {'caching': (False, True), 'share_terms': True}) for c in pools])
-    for case, r in zip(pools, res):
-        if 'spec_exc' in r:
-            continue
-        report.evaluations += 1
-        report.count('shared_expression_pools')
-        for key, run in r['runs'].items():
-            if 'exc' in run:
-                report.violations.append((f'implementation raised {run["exc"]}', {'what': run['exc'], 'case': case}))
-                continue
-            for si, (kind, qi, rows_) in enumerate(run['steps']):
-                report.traces += 1
-                if sorted(rows_) != sorted(r['specs'][qi]):
-                    what = (f'a shared expression object (val = x.b) used as a condition in one query and as a value in another: '
-                            f'step {si + 1} ({case["hist"][si]}, caching {key}) returned {sorted(rows_)}, expected {sorted(r["specs"][qi])}')
-                    report.violations.append((what, {'what': what, 'case': case, 'steps': run['steps'],
-                                                     'fresh_answers': r['specs']}))
-                    break
+    shared_expression_pools(report, rng, n)
     # third stream: ONE expression object (val = x.b) used TWICE IN ONE QUERY, once as a bare condition and once as an
     # operand.  Every case is evaluated with the object shared and with two separate objects; a deviation of the shared
     # run while the run with separate objects is right is the known finding C19-F1 (the per-evaluation state of an
@@ -300,36 +341,9 @@ def c19(report, rng, tier, findings):
         base.update({'sel': [('var', base['vars'][0][0])], 'entity': True, 'cond': [cond], 'quant': 'an'})
         base.pop('pre_take', None)
         shared_cases.append(base)
-    jobs = [({**c, 'share_terms': sh}, {'caching': (False, True), 'evals': 2, 'sized': 0}) for c in shared_cases for sh in (True, False)]
-    from .qcheck import eval_case
-    res3 = pmap(eval_case, jobs)
-    for ci, case in enumerate(shared_cases):
-        r_sh, r_un = res3[2 * ci], res3[2 * ci + 1]
-        if 'spec_exc' in r_sh:
-            continue
-        report.evaluations += 1
-        report.count('one_expression_object_as_condition_and_operand_of_one_query')
-        want = sorted(r_sh['spec'])
-
-        def wrong(r):
-            for key, run in r['impl'].items():
-                for ev, out in enumerate(run['outs']):
-                    if out[0] != 'rows' or sorted(out[1]) != want:
-                        return f'caching {key}, evaluation {ev + 1}: {out}'
-            return None
-        w_un, w_sh = wrong(r_un), wrong(r_sh)
-        report.traces += 8
-        if w_un:
-            what = f'rows differ from the specification (separate expression objects; {w_un}; expected {want})'
-            report.violations.append((what, {'what': what, 'case': {**case, 'share_terms': False}, 'expected': want}))
-        elif w_sh:
-            if 'C19-F1' in fnd:
-                report.known['C19-F1'] = report.known.get('C19-F1', 0) + 1
-                report.known_text['C19-F1'] = fnd['C19-F1']['what']
-            else:
-                what = (f'one expression object used as a condition and as an operand of the same query: {w_sh}; expected {want} '
-                        '(the same query with two separate expression objects is right)')
-                report.violations.append((what, {'what': what, 'case': {**case, 'share_terms': True}, 'expected': want}))
+    shared_twin_stream(report, findings, shared_cases, 'share_terms', 'C19-F1',
+                       'one_expression_object_as_condition_and_operand_of_one_query',
+                       'one expression object used as a condition and as an operand of the same query')
     return ['EqlModel.Props.C19'], ["falsy values in field constraints / constructor arguments are exercised by the C11/C13 checks",
                                     "an expression object other than a variable stands in ONE place of a query (sharing one object between a "
                                     "condition position and an operand position of the same query is known finding C19-F1)"]
@@ -396,7 +410,16 @@ def c15(report, rng, tier, findings):
             def join():
                 return ('cmp', rng.choice(('eq', 'ne', 'lt', 'ge')), ('attr', rng.choice('ab'), ('var', v)),
                         ('attr', rng.choice('ab'), ('var', w)))
-            if rng.random() < 0.6:
+            if i % 4 == 1:
+                # the sub-query over v comes AFTER a condition that binds v (it is evaluated with v bound) and its own
+                # condition joins the other variable w, which the enclosing query selects: every w of every v counts
+                first = gv.atom()
+                subq = ('sub', (('var', v),), rng.choice([join(), ('and', join(), gw.atom()), ('or', join(), join())]))
+                base['cond'] = [('and', first, subq)] if rng.random() < 0.6 else [first, subq]
+                if rng.random() < 0.3:
+                    base['cond'] = [('and', base['cond'][0], gw.atom())] if len(base['cond']) == 1 else base['cond'] + [gw.atom()]
+                report.count('template_subquery_evaluated_with_its_variable_bound')
+            elif rng.random() < 0.6:
                 inner = ('and', join(), gv.atom()) if rng.random() < 0.7 else join()
                 left = ('and', ('sub', (('var', v),), inner), rng.choice([gv.atom(), ('sub', (('var', v),), gv.atom())]))
                 right = rng.choice([join(), ('and', join(), gw.atom()), gvw.atom()])
@@ -412,6 +435,8 @@ def c15(report, rng, tier, findings):
                     base['cond'] = [('or', ('sub', (('var', v),), inner), rng.choice([gw.atom(), join(),
                                                                                        ('sub', (('var', v),), join())]))]
             base['sel'] = [('var', v)] if rng.random() < 0.6 else [('var', v), ('var', w)]
+            if i % 4 == 1:
+                base['sel'] = [('var', v), ('var', w)] if rng.random() < 0.8 else [('var', w)]
             base['entity'] = len(base['sel']) == 1
         elif r_ < 0.8:
             g = gen.CondGen(rng, cfg, [v[0] for v in base['vars']])
@@ -611,6 +636,9 @@ def c18(report, rng, tier, findings):
         if nv >= 2 and rng.random() < 0.25:
             gen.apply_or_template(rng, cfg, base)
             report.count('template_disjunction_binds_unselected_variable')
+        elif nv >= 3 and i % 2 == 1:
+            gen.apply_three_var_template(random.Random(i * 17 + 3), cfg, base)
+            report.count('template_three_variables')
         if len(base['sel']) == 1:
             base['entity'] = True
         rw = rewrite_case(rng, base)
@@ -1114,6 +1142,9 @@ def c10(report, rng, tier, findings):
     cases = []
     for i in range(n):
         nfree = rng.choice((1, 1, 2))
+        forced = i % 6 == 5        # a fixed share of the cases is built around one shape (see below)
+        if forced:
+            nfree = 2
         nv = nfree + 1
         u = nfree                      # the universal variable is declared last (ids 0..nfree-1 are free)
         cfg = gen.Cfg(n_vars=(nv, nv), n_objs=(2, 4), depth=2, preds=False, share_domain=0.3, empty_domain=0.0,
@@ -1121,6 +1152,8 @@ def c10(report, rng, tier, findings):
         base = gen.gen_case(rng, cfg, f'c{i}')
         free_ids = list(range(nfree))
         mode = rng.choice(('both', 'both', 'both', 'free_only', 'u_only'))
+        if forced:
+            mode = 'both'
         ids = {'both': list(range(nv)), 'free_only': free_ids, 'u_only': [u]}[mode]
         g = gen.CondGen(rng, cfg, ids)
         body = g.cond(rng.randint(0, 2))
@@ -1142,7 +1175,24 @@ def c10(report, rng, tier, findings):
         # included, are values, not conditions); it quantifies over the same objects
         shape = rng.choice(('single',) * 6 + ('two_same', 'two_same', 'nested', 'nested', 'fa_first', 'free_after',
                                               'flat_in_fa', 'flat_in_fa'))
+        if forced:
+            shape = 'single' if i % 12 == 5 else 'fa_first'
         case['fa_shape'] = shape
+        if forced or (nfree == 2 and mode == 'both' and shape in ('single', 'fa_first') and i % 2 == 0):
+            # one of the free variables of the for_all's condition is NOT selected (and no other conjunct mentions it unless
+            # the outer condition happens to): f is kept iff SOME g makes the condition true for EVERY universal value
+            case['sel'] = sel[:1]
+            case['entity'] = True
+            report.count('a_free_variable_of_the_condition_is_not_selected')
+            if forced or i % 8 != 2:
+                # template: the unselected g is tied to the selected f and compared with the universal value, so that
+                # "for every u some g" and "some g for every u" differ: g.b == f.b and g.a != u.a
+                f_, g_ = sel[0][1], [v for v in free_ids if v != sel[0][1]][0]
+                tie = ('cmp', rng.choice(('eq', 'eq', 'ne')), ('attr', 'b', ('var', g_)), ('attr', 'b', ('var', f_)))   # b: any value
+                vs = ('cmp', rng.choice(('ne', 'ne', 'lt', 'gt')), ('attr', 'a', ('var', g_)), ('attr', 'a', ('var', u)))
+                body = ('and', tie, vs) if rng.random() < 0.7 else ('and', vs, tie)
+                case['forall'] = (u, [body])
+                case['cond'] = None
         if shape == 'single':
             r_u = rng.random()
             if r_u < 0.35:
@@ -1412,7 +1462,7 @@ def c04_impl(job):
         probe.__enter__()
         try:
             b = impl.Built(case)
-            if opts.get('share_terms'):
+            if opts.get('share_terms') or case.get('share_terms_pool'):
                 b.share_terms = {}
             # snapshot of the user's data
             raws = {vid: [b.decode(v) for v in raw] for vid, _, raw in case['vars']}
@@ -1609,6 +1659,8 @@ def c04(report, rng, tier, findings):
                         report.violations.append((bad, {'what': bad, 'case': case, 'config': 'caching ' + key,
                                                         'steps': run['steps'], 'fresh_answers': res['specs']}))
                     break
+    # one expression object shared by two queries of a pool (condition position in one, value position in the other)
+    shared_expression_pools(report, rng, n)
     return ['EqlModel.Props.C04', 'EqlModel.Props.C07'], [
         "single thread; an abandoned iterator may stay suspended (never closed) while later evaluations run, but it is never RESUMED "
         "after another evaluation of its query started (interleaved advancing of two iterators of one query is outside the "
@@ -1633,6 +1685,9 @@ def c05(report, rng, tier, findings):
         cfg = gen.Cfg(n_vars=(nv, nv), n_objs=(2, 4 if nv <= 2 else 3), depth=2 if nv >= 3 else 3,
                       select_terms=0.1, subqueries=0.2, empty_domain=0.0, preds=nv < 4)
         case = gen.gen_case(rng, cfg, f'j{i}')
+        if nv >= 3 and i % 2 == 1:
+            gen.apply_three_var_template(random.Random(i * 17 + 3), cfg, case)
+            report.count('template_three_variables')
         if rng.random() < 0.5:
             order = [v[0] for v in case['vars']]
             rng.shuffle(order)
